@@ -80,6 +80,8 @@ PROPS.update({
 PROPS['C12']['bounded'] = [{'args': ['tree-ops'], 'classes': None}]
 # the witness-repair branch of phase_two is only reached when the LP answer is off: exercised through the fault hook
 PROPS['C05']['bounded'].append({'args': ['faults'], 'classes': ['cache']})
+# the distilled-network clause of C06: the builder prunes after every activation unit
+PROPS['C06']['bounded'].append({'args': ['distill'], 'classes': ['effective', 'idempotent']})
 
 PROPS['C13']['bounded'].append({'args': ['regions'], 'classes': ['size-hint']})
 PROPS['C13'].update({
